@@ -1003,6 +1003,13 @@ class State:
                                 e = (sb, be[1]) if c[1] == "Eq" else (sb, be[0])
                                 if edge_dominates(b, e, bb):
                                     guarded = True
+                    # the same test as a literal pattern: a switch on the step itself whose 0 target is left behind
+                    for sb in sorted(b.reachable()):
+                        t_ = b.blocks[sb]["term"]
+                        if t_["k"] == "switch" and t_["discr"].get("k") in ("copy", "move") and o.of_operand(t_["discr"]) == st:
+                            tg = dict((v, x) for v, x in t_["targets"])
+                            if set(tg) == {0} and tg[0] != t_["otherwise"] and edge_dominates(b, (sb, t_["otherwise"]), bb):
+                                guarded = True
                     ok = ok and guarded
         return ok and found >= 1
 
